@@ -53,6 +53,10 @@ CHECKS = {
    text='For every text of family P over bounded domains the real RoocSolver::try_new(text).solve_using(auto_solver) is run; judged on the generator\'s own tree by z3: a returned point satisfies the source and no satisfying assignment has a better objective (unsat query over all assignments); an infeasible verdict means Src is unsatisfiable; a compile error, unbounded verdict, panic or hang on a bounded model is a violation.',
    note='Programs cannot be made symbolic through pest; the quantified parts (no better assignment, no satisfying assignment) are the solver verdicts. The property text mentions enumeration of the declared domains; here z3 decides the same statement for all real values of continuous variables. Printer textgen.py + sem.py are the trusted meaning of the text.',
    ref='DESIGN §3 C03'),
+ 'C11': dict(cat=TV, tech='real formatter + parser run on an enumerated family of texts; z3 decides for all assignments that the model re-parsed from the formatted text means the same as the original, and exists/forall projection equivalence of the two compiled linear models',
+   text='For every text (all (parent, child, side) operator triples printed with minimal parentheses, unary over negative constants, implicit products, P texts in 3 spellings, hand-written surface variety) the real format() output must be accepted and z3 decides objective-value equality and per-constraint truth-value equality for all assignments plus equivalence of the compiled linear models; format(format(t)) == format(t) is evaluated.',
+   note='Meaning part only is solver-decided; idempotence is a string comparison. Outside: iteration blocks and declaration forms beyond those the family contains.',
+   ref='DESIGN §3 C11'),
 }
 NA = {
  'C04': 'no value quantifier: every clause evaluates one returned point; the solver bridges (microlp, Clarabel, IndexMap) cannot be executed symbolically (DESIGN §3 C04); its premises are still evaluated inside C03/C05/C15',
